@@ -100,6 +100,7 @@ def _regions(g, P, A, dist, ovo):
 def grad_case(case):
     target, dist, K, n, s, tag, table, seed = case[:8]
     epsilon = case[8] if len(case) > 8 else None      # non-default clipping precision: part of the columns is clipped
+    coincident = len(case) > 9 and case[9] == "coincident"   # logits of size s << 1: clusters that nearly coincide (a fresh initialisation)
     cls, ovo = target
     X = aff.dataset(n, 2, seed, nonneg=aff.needs_nonneg(tag) if dist == "mmd" else False)
     if dist == "mmd":
@@ -133,16 +134,30 @@ def grad_case(case):
     def F(z):
         return float(g(softmax(z), Aff))
 
+    # natural magnitude of the score: affinities of magnitude 1e-9 must not be judged with an absolute 1e-8
+    unit = 1.0
+    if Aff is not None:
+        mag = float(np.abs(np.asarray(Aff, dtype=float)).max())
+        unit = min(1.0, mag if dist == "wasserstein" else np.sqrt(mag))
+    # near-coincident clusters: the score is a cone-like function of the logits there, so the steps shrink with the logits and
+    # the comparison is relative only (the values are ~s, the inputs carry rounding noise ~1e-16)
+    h0 = H if not coincident else 1e-2 * s
+    r_agree, r_err = (1e-6, 1e-6) if not coincident else (2e-3, 3e-2)
+    if dist == "wasserstein":
+        # the network simplex of POT stops pivoting on reduced costs below an ABSOLUTE ~2e-15: with distances of magnitude 1e-9 the
+        # returned plan (hence score) is optimal only to ~1e-6 relative, and so is the match between its duals and its value
+        r_err += 1e-13 / max(mag, 1e-300)
+        r_agree += 1e-13 / max(mag, 1e-300)
     chain = P * (G - (P * G).sum(1, keepdims=True))
     num1 = np.zeros_like(Z)
     num2 = np.zeros_like(Z)
     for idx in np.ndindex(Z.shape):
-        for h, out in ((H, num1), (H / 8, num2)):
+        for h, out in ((h0, num1), (h0 / 8, num2)):
             zp = Z.copy(); zp[idx] += h
             zm = Z.copy(); zm[idx] -= h
             out[idx] = (F(zp) - F(zm)) / (2 * h)
     scale = max(np.abs(num2).max(), 0.0)
-    agree = np.abs(num1 - num2) <= 1e-6 * scale + 1e-9 * max(1.0, abs(s0))
+    agree = np.abs(num1 - num2) <= r_agree * scale + 1e-9 * max(unit, abs(s0))
     differentiable = bool(agree.all())
     if dist == "mmd" and _mmd_near_zero_distance(P, Aff, ovo, eps):
         # a cluster-to-cluster (or cluster-to-data) MMD is so small that the rounding noise under the square
@@ -153,12 +168,12 @@ def grad_case(case):
     if differentiable:
         ndiff = 1
         err = np.abs(chain - num2)
-        tol = 1e-6 * scale + 1e-8 * max(1.0, abs(s0))
+        tol = r_err * scale + 1e-8 * max(unit, abs(s0))
         if err.max() > tol:
             v.append(violation("gradient_mismatch", {"P": P, "analytic_chain": chain, "numeric": num2, "max_err": err.max(),
                                                      "tol": tol, "score": s0}, **where))
         # tangent directions on the simplex (only for rows safely inside)
-        if n * K <= 12:
+        if n * K <= 12 and not coincident:
             for i in range(n):
                 for a, b in itertools.combinations(range(K), 2):
                     m = min(P[i, a], P[i, b])
@@ -171,9 +186,9 @@ def grad_case(case):
                         ests.append((float(g(Pp, Aff)) - float(g(Pm, Aff))) / (2 * t))
                     d_an = G[i, a] - G[i, b]
                     sc = max(abs(ests[1]), abs(d_an))
-                    if abs(ests[0] - ests[1]) > 1e-5 * sc + 1e-7 * max(1.0, abs(s0)):
+                    if abs(ests[0] - ests[1]) > 1e-5 * sc + 1e-7 * max(unit, abs(s0)):
                         continue        # not resolvable numerically at this point
-                    if abs(d_an - ests[1]) > 1e-5 * sc + 1e-6 * max(1.0, abs(s0)):
+                    if abs(d_an - ests[1]) > (1e-5 + (r_err - 1e-6)) * sc + 1e-6 * max(unit, abs(s0)):
                         v.append(violation("tangent_derivative_mismatch",
                                            {"P": P, "row": i, "a": a, "b": b, "analytic": d_an, "numeric": ests[1]}, **where))
     # the object has now been evaluated at many neighbouring points: asked again at the original point it answers as it did when fresh
@@ -182,7 +197,7 @@ def grad_case(case):
     if not (float(s_again) == float(s0) and np.array_equal(np.asarray(G_again), G)):
         v.append(violation("answer_depends_on_what_the_object_saw_before", {"P": P, "first": G, "after_other_evaluations": G_again}, **where))
     region = _regions(g, P, Aff, dist, ovo)
-    return {"v": v[:6], "nt": [case] if differentiable and scale > 1e-9 else [],
+    return {"v": v[:6], "nt": [case] if differentiable and scale > 1e-9 * unit else [],
             "out": [(cls, ovo, K, n, region)], "stats": {"evals": 1, "differentiable": ndiff, "kinks": 1 - ndiff},
             "sample": {"target": where["target"], "K": K, "n": n, "scale": s, "affinity": tag, "table": table, "P": P}}
 
@@ -219,6 +234,12 @@ def explorers(tier, seed):
                 for eps_ in (0.05, 0.2):
                     for t in range(2):
                         cases.append((target, dist, K, n, s_, tags_full[0], ("gen", t), seed, eps_))
+        if dist in ("wasserstein", "tv"):
+            for (n, K) in [(3, 2), (4, 3), (5, 3), (4, 4)]:
+                for s_ in (1e-6, 1e-9):
+                    for t in range(ntab):
+                        for tag in tags_full:
+                            cases.append((target, dist, K, n, s_, tag, ("gen", t), seed, None, "coincident"))
         for tag in tags_small:
             for (n, K) in [(3, 2), (4, 3)]:
                 for s in (1.0, 10.0):
